@@ -45,6 +45,13 @@ func toSx(v reflect.Value) Sx {
 		}
 		xs := []Sx{}
 		for i := 0; i < v.NumField(); i++ {
+			// a hidden (unexported, not embedded) field holds nothing the serialised form shows: opaque, like
+			// the embedded mutex.  (If it DOES hold data - a memo - the model cannot know it; the spec
+			// predicates judge the look-ups all the same, which is how such a memo gets a failing input.)
+			if f := v.Type().Field(i); f.PkgPath != "" && !f.Anonymous {
+				xs = append(xs, Sym("o"))
+				continue
+			}
 			xs = append(xs, toSx(v.Field(i)))
 		}
 		return xs
